@@ -621,7 +621,18 @@ func newRaceReports(prop, scenario string) []string {
 			}
 		}
 		if rel == "" {
-			continue // both accesses are in harness or library code
+			// both innermost frames are in library code: the report still counts when BOTH
+			// accesses were made on behalf of repository code (a library object shared between
+			// two goroutines of the engine); named after the innermost repository frame
+			callers := raceRepoCallers(rep)
+			if len(callers) < 2 {
+				continue // harness or library code only
+			}
+			rel = callers[0]
+			if i := strings.LastIndex(rel, "/"); i >= 0 {
+				rel = rel[i+1:]
+			}
+			rel += "/in-library"
 		}
 		out = append(out, fmt.Sprintf("%s/%s/data-race/%s|the race detector reports an access pair not ordered by the program's synchronisation in this schedule:\n%s", prop, class(scenario), rel, firstLines(strings.TrimSpace(rep), 40)))
 	}
@@ -629,6 +640,31 @@ func newRaceReports(prop, scenario string) []string {
 }
 
 type raceFrame struct{ fn, file string }
+
+// raceRepoCallers returns, for each access section of a report whose stack contains a non-test
+// repository frame, the innermost such frame's function.
+func raceRepoCallers(rep string) []string {
+	var out []string
+	lines := strings.Split(rep, "\n")
+	for i := 0; i < len(lines); i++ {
+		l := strings.TrimSpace(lines[i])
+		if !(strings.HasPrefix(l, "Read at") || strings.HasPrefix(l, "Write at") || strings.HasPrefix(l, "Previous read at") || strings.HasPrefix(l, "Previous write at")) {
+			continue
+		}
+		for j := i + 1; j+1 < len(lines); j += 2 {
+			fn := strings.TrimSpace(lines[j])
+			file := strings.TrimSpace(lines[j+1])
+			if fn == "" {
+				break
+			}
+			if strings.HasPrefix(file, "/repo/") && !strings.HasPrefix(file, "/repo/verifrt/") && !strings.Contains(file, "_test.go") {
+				out = append(out, strings.TrimSuffix(fn, "()"))
+				break
+			}
+		}
+	}
+	return out
+}
 
 // raceTopFrames returns the innermost frame of each access of a report ("Read at", "Write at",
 // "Previous read at", "Previous write at" sections).
